@@ -55,9 +55,9 @@ func (compile schemaCompiler) compileNode(node schema.Node, indexOfNode int) {
 		panic(err)
 	}
 	compile.optionalConstraints(node, indexOfNode) // can panic
+	compile.emptyArray(node)                       // can panic
 
 	if branchingNode, ok := node.(schema.BranchNode); ok {
-		compile.emptyArray(node) // can panic
 		for i, child := range branchingNode.Children() {
 			compile.compileNode(child, i) // can panic
 		}
@@ -541,9 +541,18 @@ func (schemaCompiler) precisionConstraint(node schema.Node) {
 }
 
 func (schemaCompiler) emptyArray(node schema.Node) {
-	arrayNode, ok := node.(*schema.ArrayNode)
-
-	if !ok || arrayNode.Len() != 0 {
+	switch n := node.(type) {
+	case *schema.ArrayNode:
+		if n.Len() != 0 {
+			return
+		}
+	case *schema.MixedNode:
+		// The array of a rule-set in the "or" rule ({type: "array", minItems: 1})
+		// has no items at all, it is the same empty array.
+		if n.Type() != json.TypeArray {
+			return
+		}
+	default:
 		return
 	}
 
